@@ -49,6 +49,7 @@ var inputs = map[string]string{
 	"tconflict": "grammar calc;\nAA = /[a-z]+/\nBB = /[a-z][a-z]*/\nstart = AA BB;\n",
 	"lalr":      "grammar calc;\nstart = start \"+\" start | \"i\";\n",
 	"keyword":   "grammar func;\nstart = \"a\";\n",
+	"predeclared": "grammar string;\nstart = \"a\";\n", // the grammar's own name is predeclared in Go; -name replaces it
 	// exactly 256 and 512 problems of one kind (an exit status is one byte)
 	"many256": manyProblems(256),
 	"many512": manyProblems(512),
@@ -228,14 +229,14 @@ func checkConfig(c Config) (summary string, err error) {
 		}
 		inPath, argIn = filepath.Join(work, rel), rel
 	}
-	validInput = validInput && (c.Input == "valid" || c.Input == "valid2" || c.Input == "valid3" || c.Input == "valid4" || c.Input == "valid5" || c.Input == "keyword")
+	validInput = validInput && (c.Input == "valid" || c.Input == "valid2" || c.Input == "valid3" || c.Input == "valid4" || c.Input == "valid5" || c.Input == "keyword" || c.Input == "predeclared")
 	// output location
 	outDir := work
 	var args []string
 	if c.OutFlag != "" {
 		outDir = filepath.Join(sb, "outroot")
 		argOut := outDir
-		if c.Rel {
+		if c.Rel && c.OutState != "symlink" {
 			outDir, argOut = filepath.Join(work, "gen"), "gen"
 			if c.Tilde {
 				// a directory whose name starts with a tilde is a directory like any other (only a shell expands ~)
@@ -247,6 +248,15 @@ func checkConfig(c Config) (summary string, err error) {
 			_ = os.Mkdir(outDir, 0o755)
 		case "file":
 			_ = os.WriteFile(outDir, []byte("i am a file\n"), 0o644)
+		case "symlink":
+			// -out names a link with a relative target, several directories away from the working directory
+			real := filepath.Join(sb, "real", "outdir")
+			_ = os.MkdirAll(real, 0o755)
+			linkDir := filepath.Join(sb, "links", "deep")
+			_ = os.MkdirAll(linkDir, 0o755)
+			argOut = filepath.Join(linkDir, "out")
+			_ = os.Symlink(filepath.Join("..", "..", "real", "outdir"), argOut)
+			outDir = real
 		}
 		if c.OutFlag == "=" {
 			args = append(args, "-out="+argOut)
@@ -254,7 +264,7 @@ func checkConfig(c Config) (summary string, err error) {
 			args = append(args, "-out", argOut)
 		}
 	}
-	outUsable := c.OutFlag == "" || c.OutState == "dir"
+	outUsable := c.OutFlag == "" || c.OutState == "dir" || c.OutState == "symlink"
 	// the effective name
 	name := c.Name
 	if c.NameFlag == "" {
@@ -275,6 +285,8 @@ func checkConfig(c Config) (summary string, err error) {
 			effective = "lists"
 		case "keyword":
 			effective = "func"
+		case "predeclared":
+			effective = "string"
 		}
 	}
 	if c.NameFlag == "=" {
@@ -426,6 +438,9 @@ func checkConfig(c Config) (summary string, err error) {
 	if c.Input == "keyword" && name == "" {
 		nc = "unusable"
 	}
+	if c.Input == "predeclared" && name == "" {
+		nc = "either" // a predeclared identifier as package name may be accepted or rejected
+	}
 	mustSucceed := validInput && outUsable && preUsable && nc == "usable" && c.Fsize == 0
 	mustFail := !validInput || !outUsable || !preUsable || nc == "unusable"
 	if mustSucceed && code != 0 {
@@ -489,7 +504,7 @@ func genConfig(t *rapid.T) Config {
 	c := Config{
 		Input:    rapid.SampledFrom([]string{"valid", "valid", "valid3", "valid3", "valid2", "valid4", "valid5", "syntax", "lexical", "semantic", "pattern", "tconflict", "lalr", "keyword", "missing", "directory", "many255", "many256", "many512"}).Draw(t, "input"),
 		OutFlag:  rapid.SampledFrom([]string{"", "=", " ", "="}).Draw(t, "outFlag"),
-		OutState: rapid.SampledFrom([]string{"dir", "dir", "dir", "missing", "file"}).Draw(t, "outState"),
+		OutState: rapid.SampledFrom([]string{"dir", "dir", "dir", "missing", "file", "symlink"}).Draw(t, "outState"),
 		Pre:      rapid.SampledFrom([]string{"none", "none", "dir", "dirwithfiles", "dirwithlinks", "file", "symlinkdir", "dangling", "unrelated"}).Draw(t, "pre"),
 		NameFlag: rapid.SampledFrom([]string{"", "", "=", " "}).Draw(t, "nameFlag"),
 		Name:     rapid.SampledFrom(names).Draw(t, "name"),
@@ -571,6 +586,22 @@ func TestEveryKeywordAsName(t *testing.T) {
 	}
 	if _, err := os.Stat(os.Getenv("VERIF_EMERGE_BIN")); err != nil {
 		t.Skip("emerge binary not built")
+	}
+	// -name replaces the grammar's own name, whatever that name is; -out may be a link
+	for _, c := range []Config{
+		{Input: "keyword", OutFlag: "=", OutState: "dir", Pre: "none", NameFlag: "=", Name: "gop"},
+		{Input: "keyword", OutFlag: " ", OutState: "dir", Pre: "none", NameFlag: " ", Name: "gop"},
+		{Input: "predeclared", OutFlag: "=", OutState: "dir", Pre: "none", NameFlag: "=", Name: "gop"},
+		{Input: "predeclared", OutFlag: "=", OutState: "dir", Pre: "none"},
+		{Input: "valid", OutFlag: "=", OutState: "symlink", Pre: "none"},
+		{Input: "valid", OutFlag: " ", OutState: "symlink", Pre: "dirwithfiles"},
+		{Input: "valid3", OutFlag: "=", OutState: "symlink", Pre: "none", NameFlag: "=", Name: "viaLink"},
+	} {
+		summary, err := checkConfig(c)
+		rec.Case(c.String(), true, "name_replaced_or_out_is_a_link", summary)
+		if err != nil {
+			rec.Fail(t, "config", c, "%v", err)
+		}
 	}
 	// names that are no Go identifiers although they look like ones, and identifiers that need care
 	for _, name := range []string{"v²", "partⅣ", "x٣", "x½", "a·b", "Calc", "CamelCase", "ünï", "π", "x_", "_x", "a1", "日本", "a-b", "a.b", "a b", "1a", "²", "á", "́a", "x‌", "if_", "String"} {
